@@ -1,10 +1,16 @@
 #!/bin/sh
 # re-confirms every seeded change in /verif/seeded against the current checks
+# usage: tools/reseed.sh [stamp-file]   (seeds whose meta.json is newer than
+# the stamp file are skipped: lets an interrupted run be continued)
 cd /verif
+stamp=$1
 for d in seeded/*/; do
   id=$(basename "$d")
   prop=$(echo "$id" | cut -d- -f1)
+  if [ -n "$stamp" ] && [ -f "$stamp" ] && [ "$d/meta.json" -nt "$stamp" ]; then
+    continue
+  fi
   extra=""
   case "$id" in C02-1) extra="C02 C05";; C02-2) extra="C02 C08 C09";; C05-2) extra="C05 C02";; C02-7) extra="C02 C08";; C05-8) extra="C05 C19";; C05-9) extra="C05 C02";; esac
-  GFAMC_NPROC=${GFAMC_NPROC:-4} /venv/bin/python tools/seedcheck.py "$d" "$id" "$prop" $extra 2>&1 | cut -c1-300
+  GFAMC_NPROC=${GFAMC_NPROC:-16} /venv/bin/python tools/seedcheck.py "$d" "$id" "$prop" $extra 2>&1 | cut -c1-300
 done
